@@ -187,6 +187,23 @@ class AtomicAnalysis:
           out.append((call, s, d))
     return out
 
+  def renames_on_failure_path(self, ff: FuncFlow) -> List[Tuple[ast.Call, str]]:
+    """Renames placed in a `finally:` body or an exception handler: they also run while an exception (KeyboardInterrupt and
+    SystemExit included) is leaving the block, i.e. after an incomplete write."""
+    out = []
+    m = ff.module
+    for call, _, _ in self.renames(ff):
+      cur, child = m.parent_of.get(call), call
+      while cur is not None and cur is not ff.fi.node:
+        if isinstance(cur, ast.Try) and any(child is st for st in cur.finalbody):
+          out.append((call, 'finally'))
+          break
+        if isinstance(cur, ast.ExceptHandler):
+          out.append((call, 'except'))
+          break
+        child, cur = cur, m.parent_of.get(cur)
+    return out
+
   def publishes(self, ff: FuncFlow, w: Writer, final: ast.AST) -> bool:
     """Every normal path from the writer to exit passes rename(w.path, final)."""
     wn = ff.node_of(w.call)
